@@ -961,6 +961,13 @@ class Engine:
 
     bi_list = bi_tuple
 
+    def bi_set(self, args, kw, env, pc, line):
+        if not args and not kw:
+            return VSeq({}, z3.IntVal(0), None)       # an empty collection of unknown element type: typed at the assignment (local_shapes)
+        if args and isinstance(args[0], VSet):
+            return args[0]
+        raise Undecided("set(...)", line)
+
     def bi_frozenset(self, args, kw, env, pc, line):
         if args and isinstance(args[0], VSet):
             return args[0]
@@ -1175,6 +1182,10 @@ class Engine:
     # ------------------------------------------------------------------ statements
     def assign(self, target, val, env, pc, line):
         if isinstance(target, ast.Name):
+            if isinstance(val, VSeq) and val.shape is None and target.id in self.unit.local_shapes and self.unit.local_shapes[target.id][0] == "set":
+                sh = self.unit.local_shapes[target.id]
+                env[target.id] = VSet(z3.K(LEAF_SORT[sh[1]], z3.BoolVal(False)), sh[1])
+                return
             if isinstance(val, VSeq) and val.shape is None and target.id in self.unit.local_shapes:
                 sh = self.unit.local_shapes[target.id]
                 typed = fresh_val(target.id, sh)
